@@ -18,13 +18,14 @@ import (
 )
 
 type request struct {
-	Op        string   `json:"op"` // store | retrieve
-	Dir       string   `json:"dir"`
-	Doc       string   `json:"doc_b64,omitempty"`
-	NilDoc    bool     `json:"nil_doc,omitempty"`
-	NilMeta   bool     `json:"nil_meta,omitempty"`
-	NoClobber bool     `json:"noclobber,omitempty"`
-	IDs       []string `json:"ids_b64,omitempty"` // base64 so that arbitrary bytes survive JSON
+	Op        string    `json:"op"`              // store | retrieve | session
+	Steps     []request `json:"steps,omitempty"` // session: store | retrieve | rmbase | setpath, all on ONE backend object
+	Dir       string    `json:"dir"`
+	Doc       string    `json:"doc_b64,omitempty"`
+	NilDoc    bool      `json:"nil_doc,omitempty"`
+	NilMeta   bool      `json:"nil_meta,omitempty"`
+	NoClobber bool      `json:"noclobber,omitempty"`
+	IDs       []string  `json:"ids_b64,omitempty"` // base64 so that arbitrary bytes survive JSON
 }
 
 type result struct {
@@ -55,6 +56,34 @@ func main() {
 func handle(rq request) (res []result) {
 	fs := storage.NewFileSystem()
 	fs.Options.Path = rq.Dir
+	if rq.Op == "session" {
+		// one backend object, one writer and one reader for the whole sequence
+		w := writer.New(writer.WithStoreRetriever(fs))
+		rd := reader.New(reader.WithStoreRetriever(fs))
+		for _, st := range rq.Steps {
+			switch st.Op {
+			case "rmbase":
+				res = append(res, result{Err: errString(os.RemoveAll(fs.Options.Path))})
+			case "setpath":
+				fs.Options.Path = st.Dir
+				res = append(res, result{})
+			default:
+				res = append(res, handleOn(fs, w, rd, st)...)
+			}
+		}
+		return res
+	}
+	return handleOn(fs, writer.New(writer.WithStoreRetriever(fs)), reader.New(reader.WithStoreRetriever(fs)), rq)
+}
+
+func errString(err error) string {
+	if err != nil {
+		return err.Error()
+	}
+	return ""
+}
+
+func handleOn(fs *storage.FileSystem, w *writer.Writer, rd *reader.Reader, rq request) (res []result) {
 	switch rq.Op {
 	case "store":
 		r := result{}
@@ -76,14 +105,12 @@ func handle(rq request) (res []result) {
 					doc.Metadata = nil
 				}
 			}
-			w := writer.New(writer.WithStoreRetriever(fs))
 			if err := w.StoreWithOptions(doc, &writer.Options{StoreOptions: &storage.StoreOptions{NoClobber: rq.NoClobber}}); err != nil {
 				r.Err = err.Error()
 			}
 		}()
 		return []result{r}
 	case "retrieve":
-		rd := reader.New(reader.WithStoreRetriever(fs))
 		for _, idb := range rq.IDs {
 			r := result{}
 			func() {
